@@ -643,8 +643,14 @@ class SN:
         return self.arctan2(1)
 
     def exp(self):
+        g = z3.simplify(_toreal(self.e), som=True, sort_sums=True)
+        key = g.sexpr()
+        cache = CTX.__dict__.setdefault('expcache', {})
+        if key in cache:
+            return SN(cache[key])
         E = CTX.fresh('E')
-        CTX.exps[str(E)] = (E, z3.simplify(_toreal(self.e)))
+        cache[key] = E
+        CTX.exps[str(E)] = (E, g)
         CTX.defs[str(E)] = [E > 0]
         return SN(E)
 
@@ -1075,3 +1081,32 @@ def numeval(t, env, c=None):
             return (not ev(ch[0])) or ev(ch[1])
         raise NotImplementedError(str(t.decl()))
     return ev(t)
+
+
+# ----------------------------------------------------------------------------------------------
+# many independent harnesses in parallel (each explored sequentially inside one worker)
+# ----------------------------------------------------------------------------------------------
+_PLANS = None
+
+
+def _plan_worker(i):
+    fn, kw = _PLANS[i]
+    st, res = explore(fn, workers=1, **kw)
+    return i, st, res
+
+
+def explore_many(plans, workers=16):
+    """plans: list of (fn, kwargs for explore). Returns list of (Stats, results) in plan order."""
+    global _PLANS
+    _PLANS = plans
+    out = [None] * len(plans)
+    if workers <= 1 or len(plans) <= 1:
+        for i in range(len(plans)):
+            _, st, res = _plan_worker(i)
+            out[i] = (st, res)
+        return out
+    import multiprocessing as mp
+    with mp.get_context('fork').Pool(min(workers, len(plans))) as pool:
+        for i, st, res in pool.imap_unordered(_plan_worker, range(len(plans)), chunksize=1):
+            out[i] = (st, res)
+    return out
